@@ -68,7 +68,20 @@ class Gen:
             elif k < 0.7:
                 self.tmp += 1
                 i = "i%d" % self.tmp
-                if r.random() < 0.6:
+                if r.random() < 0.3:
+                    # a whole loop on ONE source line whose circuits share arcs: short-circuit loop condition, or two
+                    # if/else in sequence in the body (structured: the cycle decomposition of the line is unique)
+                    v = vars_[0]
+                    if r.random() < 0.5:
+                        self.emit(ind, "for (int %s = 0; %s < ((%s) & 7) + %d; %s++) { if (%s & 1) %s += 1; else %s -= 2; if (%s %% 3) %s ^= 3; else %s += 4; }"
+                                  % (i, i, self.expr(vars_, 2), r.randrange(2, 5), i, i, v, v, i, v, v))
+                    else:
+                        op = r.choice(["&&", "||"])
+                        c2 = "((%s + %s) & 7) != 7" % (v, i) if op == "&&" else "((%s + %s) & 15) == 15" % (v, i)
+                        c1 = "%s < m%s" % (i, i) if op == "&&" else "%s < (m%s >> 1)" % (i, i)
+                        self.emit(ind, "{ int %s = 0, m%s = ((%s) & 7) + 3; while (%s < m%s && (%s %s %s)) %s++; %s += %s; }"
+                                  % (i, i, self.expr(vars_, 2), i, i, c1, op, c2, i, v, i))
+                elif r.random() < 0.6:
                     self.emit(ind, "for (int %s = 0; %s < ((%s) & 3) + %d; %s++) {" % (i, i, self.expr(vars_, 2), r.randrange(0, 3), i))
                     self.block(ind + 1, vars_ + [i], callees, depth + 1, True)
                     self.emit(ind, "}")
@@ -229,6 +242,22 @@ def macro_loop_program(ncases=34, mod=None):
 
 
 SHAPES.append((macro_loop_program(34), [["200"], ["7"]]))
+
+
+# whole loops on one source line whose circuits share arcs (shared arc must be counted once: get_cycle_count subtracts)
+SHAPES.append(({"t.c": """#include <stdlib.h>
+int skip(const char *s, int n) { int i = 0;
+  while (i < n && s[i] == ' ') i++;
+  return i; }
+int mix(int n) { int a = 0, b = 0, c = 0, d = 0;
+  for (int i = 0; i < n; i++) { if (i & 1) a++; else b++; if (i % 3) c++; else d++; }
+  return a + 2 * b + 3 * c + 5 * d; }
+int either(int n) { int i = 0, s = 0;
+  while (i < n || (s & 3) != 3) { if (i % 4 == 1) s += 2; else s++; i++; }
+  return s; }
+int main(int argc, char **argv) { int n = argc > 1 ? atoi(argv[1]) : 3;
+  return (skip("          x", n) + skip("   y", n + 5) + mix(n) + mix(2 * n + 1) + either(n)) & 0; }
+"""}, [["10"], ["4"], ["7"]]))
 
 
 def arg_sets(rng, k):
